@@ -130,9 +130,44 @@ func ruleCronDue(w *World, r *Report) {
 		}
 		return false
 	}
+	// ... or the job comes out of the head of the timeline that Timeline.Search(now) cut off (firing everything that is
+	// due in one pass): premise, checked: Search compares its argument with the Next of the entries
+	isDueSearch := func(v ssa.Value) bool {
+		c, ok := v.(*ssa.Call)
+		if !ok || c.Common().StaticCallee() == nil {
+			return false
+		}
+		f := c.Common().StaticCallee()
+		if f.Name() != "Search" || w.RelPkg(f) != "cron" {
+			return false
+		}
+		cmp := false
+		withAnon(f, func(g *ssa.Function) {
+			allInstrs(g, func(x ssa.Instruction) {
+				if xv, isV := x.(ssa.Value); isV && isDueCmp(xv) {
+					cmp = true
+				}
+			})
+		})
+		if !cmp {
+			return false
+		}
+		// the time it is asked about is the clock's
+		for _, a := range c.Common().Args {
+			if dependsOn(a, func(x ssa.Value) bool {
+				cc, isC := x.(*ssa.Call)
+				return isC && cc.Common().StaticCallee() != nil && cc.Common().StaticCallee().Name() == "Now" && cc.Common().StaticCallee().Pkg != nil && cc.Common().StaticCallee().Pkg.Pkg.Path() == "time"
+			}) {
+				return true
+			}
+		}
+		return false
+	}
 	for _, l := range launches {
 		if controlDependsOn(st, l, isDueCmp) {
 			r.ok("CRON-DUE", key, w.PosOf(l), "the launch is control dependent on a comparison with job.Next")
+		} else if controlDependsOn(st, l, isDueSearch) {
+			r.ok("CRON-DUE", key, w.PosOf(l), "the launch is bounded by Timeline.Search(now), which compares with the entries' Next")
 		} else {
 			r.violation("CRON-DUE", key, w.PosOf(l), "a job is launched without a comparison of the current time with its Next time: it can fire early")
 		}
